@@ -131,6 +131,10 @@ func checkC19(tier, replay string) int {
 	var unknownMu sync.Mutex
 	unknownNames := map[string]bool{}
 	goarchs := map[string]bool{}
+	_, e1 := os.Stat(filepath.Join(repo, "seccomp_linux.go"))
+	_, e2 := os.Stat(filepath.Join(repo, "seccomp_unsupported.go"))
+	namedFilesExist := e1 == nil && e2 == nil
+	ctx.Cov["loader_and_stub_files_found_under_their_names"] = namedFilesExist
 	parallelFor(len(targets), func(i int) {
 		t := targets[i]
 		parts := strings.SplitN(t, "/", 2)
@@ -215,6 +219,11 @@ func checkC19(tier, replay string) int {
 		// file selection and stub facts on non-Linux targets
 		root := pkgs[0]
 		has := func(name string) bool {
+			// the two file names are those of the tree as it is; if a file was renamed the question cannot be asked by
+			// name, and the executed-stub phases answer it instead
+			if !namedFilesExist {
+				return name == "seccomp_linux.go" == (goos == "linux" || goos == "android")
+			}
 			for _, f := range root.GoFiles {
 				if f == name {
 					return true
@@ -239,10 +248,12 @@ func checkC19(tier, replay string) int {
 	})
 	// the stubs are executed where that is possible here (js/wasm under node, every host call recorded); only if it is not,
 	// the stub file is judged by its syntax: no call expressions, no imports, Supported returns the literal false
-	if ran, note := c19StubRuntime(ctx, scratch); ran {
-		ctx.Cov["stubs_executed_on"] = "js/wasm under node: " + note
-	} else {
-		ctx.Cov["stubs_executed_on"] = "not executed (" + note + "); judged syntactically"
+	ranJS, noteJS := c19StubRuntime(ctx, scratch)
+	ranNative, noteNative := c19StubNative(ctx, scratch)
+	ctx.Cov["stubs_executed_on_js_wasm_under_node"] = noteJS
+	ctx.Cov["stub_sources_executed_on_linux_under_strace"] = noteNative
+	if !ranJS && !ranNative {
+		ctx.Cov["stubs_judged_syntactically"] = true
 		stubFacts(ctx, filepath.Join(repo, "seccomp_unsupported.go"))
 	}
 	// every GOARCH of the distribution list: table exactly for 386, amd64, arm, arm64
@@ -282,7 +293,7 @@ func checkC19(tier, replay string) int {
 	}
 	sort.Strings(un)
 	ctx.Cov["constant_names_without_oracle_value"] = un
-	ctx.Cov["rule"] = "every GOOS/GOARCH pair of `go tool dist list` is built (thorough: additionally vetted, informational) with an overlay-added file per package that asserts, for every constant declared in the files selected for that target, equality with the vendored Linux UAPI value (two array-index expressions that only compile if equal; ENOSYS is 89 on linux/mips*, 38 elsewhere); file selection (loader vs stub) from go list; the stubs are executed: a probe built for js/wasm runs under node with a preloaded hook that records every call into node's fs and process objects (the only system interface of such a program) while Supported, SetNoNewPrivs and 48 LoadFilter calls (no_new_privs x 4 flag words x 6 policies incl. invalid ones) run - Supported must be false and no host call may be recorded, a control window with a real getuid call shows that the hook sees calls (if node or the wasm support files are missing, the stub file is judged by its syntax instead: no imports, no call expressions, Supported returns the literal false); GetInfo(goarch) for every GOARCH must have a table exactly for 386/amd64/arm/arm64; for every GOARCH a probe is built with an overlay that substitutes runtime.GOARCH in the library sources and run on the host: with the architecture left implicit, GetInfo(\"\") and Policy.Assemble must fail with an unsupported-architecture error on targets without tables and succeed on the four with tables; a program probe (700+ policies over all four tables: whole tables, three groups, all operations x all argument indices x operands) is built for the host and for GOARCH=386, both are run here, and every program digest must be identical; non-trivial = targets whose build with assertions succeeded"
+	ctx.Cov["rule"] = "every GOOS/GOARCH pair of `go tool dist list` is built (thorough: additionally vetted, informational) with an overlay-added file per package that asserts, for every constant declared in the files selected for that target, equality with the vendored Linux UAPI value (two array-index expressions that only compile if equal; ENOSYS is 89 on linux/mips*, 38 elsewhere); file selection (loader vs stub) from go list; the stubs are executed: a probe built for js/wasm runs under node with a preloaded hook that records every call into node's fs and process objects (the only system interface of such a program) while Supported, SetNoNewPrivs and 48 LoadFilter calls (no_new_privs x 4 flag words x 6 policies incl. invalid ones) run - Supported must be false and no host call may be recorded, a control window with a real getuid call shows that the hook sees calls and the same entry points are run natively under strace from a build in which, through an overlay, the files selected only for Linux are emptied and the files selected only for non-Linux targets (the stubs, according to go list for darwin) take their place: between two marker system calls no system call other than the Go runtime's own memory and scheduling calls may appear (only if neither execution is possible the stub file is judged by its syntax: no imports, no call expressions, Supported returns the literal false); GetInfo(goarch) for every GOARCH must have a table exactly for 386/amd64/arm/arm64; for every GOARCH a probe is built with an overlay that substitutes runtime.GOARCH in the library sources and run on the host: with the architecture left implicit, GetInfo(\"\") and Policy.Assemble must fail with an unsupported-architecture error on targets without tables and succeed on the four with tables; a program probe (700+ policies over all four tables: whole tables, three groups, all operations x all argument indices x operands) is built for the host and for GOARCH=386, both are run here, and every program digest must be identical; non-trivial = targets whose build with assertions succeeded"
 	ctx.Sample(map[string]any{"target": "darwin/arm64", "assertion": "var _ = [1]struct{}{}[uint64(ActionAllow)-2147418112]"})
 	ctx.Assumptions = []string{"foreign targets are compiled and constant-evaluated by the real compiler, not executed", "vendored UAPI values from this image's linux/seccomp.h, linux/prctl.h, asm-generic/errno.h"}
 	return finishOrReplay(ctx, replay)
@@ -504,4 +515,177 @@ func c19StubRuntime(ctx *evid.Ctx, scratch string) (bool, string) {
 		ctx.Violation("C19:stub-runtime:host-calls", fmt.Sprintf("on js/wasm the stubs (Supported, SetNoNewPrivs, 48 LoadFilter calls) called into the host: %v", calls.Stubs), map[string]any{"target": "js/wasm", "calls": calls.Stubs})
 	}
 	return true, line
+}
+
+// c19StubNative executes the source of the non-Linux stubs on this Linux host: go list says which files of the module's
+// packages are selected for linux only and which for a non-Linux target only; an overlay empties the former and adds the
+// latter (build constraints stripped) under new names; harness/cmd/stubnative is built against that and run under strace.
+func c19StubNative(ctx *evid.Ctx, scratch string) (bool, string) {
+	if !straceWorks() {
+		return false, "strace cannot trace here"
+	}
+	type pkg struct {
+		ImportPath string
+		Dir        string
+		Name       string
+		GoFiles    []string
+	}
+	list := func(goos string) (map[string]pkg, error) {
+		args := []string{"list", "-deps", "-json=ImportPath,Dir,Name,GoFiles"}
+		if mf := os.Getenv("VERIF_MODFILE"); mf != "" {
+			args = append(args, "-modfile="+mf)
+		}
+		args = append(args, "github.com/elastic/go-seccomp-bpf")
+		cmd := exec.Command("go", args...)
+		cmd.Dir = filepath.Join(evid.Root(), "harness")
+		cmd.Env = append(os.Environ(), "GOOS="+goos, "GOARCH=amd64", "CGO_ENABLED=0")
+		out, err := cmd.Output()
+		if err != nil {
+			return nil, err
+		}
+		res := map[string]pkg{}
+		dec := json.NewDecoder(strings.NewReader(string(out)))
+		for dec.More() {
+			var p pkg
+			if err := dec.Decode(&p); err != nil {
+				return nil, err
+			}
+			if strings.HasPrefix(p.ImportPath, "github.com/elastic/go-seccomp-bpf") {
+				res[p.ImportPath] = p
+			}
+		}
+		return res, nil
+	}
+	lin, err1 := list("linux")
+	oth, err2 := list("darwin")
+	if err1 != nil || err2 != nil {
+		return false, fmt.Sprintf("go list failed: %v %v", err1, err2)
+	}
+	overlay := map[string]string{}
+	n, swapped := 0, 0
+	for ip, lp := range lin {
+		op, ok := oth[ip]
+		if !ok {
+			continue
+		}
+		inL, inO := map[string]bool{}, map[string]bool{}
+		for _, f := range lp.GoFiles {
+			inL[f] = true
+		}
+		for _, f := range op.GoFiles {
+			inO[f] = true
+		}
+		for f := range inL {
+			if !inO[f] {
+				n++
+				e := filepath.Join(scratch, fmt.Sprintf("stubnative-empty-%d.go", n))
+				os.WriteFile(e, []byte("package "+lp.Name+"\n"), 0o644)
+				overlay[filepath.Join(lp.Dir, f)] = e
+				swapped++
+			}
+		}
+		for f := range inO {
+			if !inL[f] {
+				b, err := os.ReadFile(filepath.Join(op.Dir, f))
+				if err != nil {
+					return false, "cannot read " + f
+				}
+				var keep []string
+				for _, l := range strings.Split(string(b), "\n") {
+					if strings.HasPrefix(l, "//go:build") || strings.HasPrefix(l, "// +build") {
+						continue
+					}
+					keep = append(keep, l)
+				}
+				n++
+				c := filepath.Join(scratch, fmt.Sprintf("stubnative-copy-%d.go", n))
+				os.WriteFile(c, []byte(strings.Join(keep, "\n")), 0o644)
+				overlay[filepath.Join(lp.Dir, fmt.Sprintf("zz_verif_nonlinux_%d.go", n))] = c
+				swapped++
+			}
+		}
+	}
+	if swapped == 0 {
+		return false, "no file of the module is selected by operating system"
+	}
+	ob, _ := json.Marshal(map[string]any{"Replace": overlay})
+	ov := filepath.Join(scratch, "stubnative-overlay.json")
+	os.WriteFile(ov, ob, 0o644)
+	bin := filepath.Join(scratch, "stubnative")
+	args := []string{"build"}
+	if mf := os.Getenv("VERIF_MODFILE"); mf != "" {
+		args = append(args, "-modfile="+mf)
+	}
+	args = append(args, "-overlay", ov, "-o", bin, "./cmd/stubnative")
+	bc := exec.Command("go", args...)
+	bc.Dir = filepath.Join(evid.Root(), "harness")
+	bc.Env = append(os.Environ(), "CGO_ENABLED=0")
+	if out, err := bc.CombinedOutput(); err != nil {
+		// the non-Linux file set does not build on its own on Linux (it may legitimately need something else): no verdict
+		return false, "the non-Linux file set does not build under the overlay: " + clip(string(out), 200)
+	}
+	trace := filepath.Join(scratch, "stubnative.trace")
+	r := runCmd(120*time.Second, []string{"PATH=/usr/bin:/bin", "HOME=" + scratch, "GODEBUG=asyncpreemptoff=1", "GOMAXPROCS=1"}, scratch, "strace", "-f", "-o", trace, bin)
+	tb, _ := os.ReadFile(trace)
+	if r.Exit != 0 || !strings.Contains(r.Stdout, "STUBPROBE ") || len(tb) == 0 {
+		return false, fmt.Sprintf("native probe run gave no result (exit %d, %.200s)", r.Exit, r.Stderr)
+	}
+	// the Go runtime's own memory management, scheduling and signal handling are not the stubs' doing
+	noise := map[string]bool{"mmap": true, "munmap": true, "madvise": true, "brk": true, "mprotect": true, "futex": true, "nanosleep": true, "clock_nanosleep": true, "sched_yield": true,
+		"rt_sigprocmask": true, "rt_sigreturn": true, "rt_sigaction": true, "sigaltstack": true, "clone": true, "clone3": true, "tgkill": true, "getpid": true, "gettid": true, "epoll_pwait": true, "epoll_wait": true, "set_robust_list": true, "rseq": true, "timer_settime": true, "timer_create": true, "timer_delete": true, "setitimer": true}
+	window := func(name string) ([]string, bool) {
+		tid, in, closed := "", false, false
+		var calls []string
+		for _, l := range strings.Split(string(tb), "\n") {
+			f := strings.Fields(l)
+			if len(f) < 2 {
+				continue
+			}
+			if strings.Contains(l, name+"-WINDOW-BEGIN") {
+				tid, in = f[0], true
+				continue
+			}
+			if in && strings.Contains(l, name+"-WINDOW-END") {
+				closed = true
+				break
+			}
+			if !in || f[0] != tid {
+				continue
+			}
+			rest := strings.TrimSpace(l[len(f[0]):])
+			if strings.HasPrefix(rest, "<...") || strings.HasPrefix(rest, "---") || strings.HasPrefix(rest, "+++") {
+				continue // the completion of a call already counted, a signal, an exit notice
+			}
+			if i := strings.IndexByte(rest, '('); i > 0 {
+				if sc := rest[:i]; !noise[sc] {
+					calls = append(calls, sc)
+				}
+			}
+		}
+		return calls, closed
+	}
+	control, ok1 := window("CONTROL")
+	stubs, ok2 := window("STUB")
+	hasGetuid := false
+	for _, c := range control {
+		if c == "getuid" {
+			hasGetuid = true
+		}
+	}
+	if !ok1 || !ok2 || !hasGetuid {
+		return false, "the trace does not show the control call between its markers"
+	}
+	line := ""
+	for _, l := range strings.Split(r.Stdout, "\n") {
+		if strings.HasPrefix(l, "STUBPROBE ") {
+			line = l
+		}
+	}
+	if !strings.Contains(line, "supported=[false false]") {
+		ctx.Violation("C19:stub-native:supported", "the non-Linux file set, executed on this host, does not report seccomp as unsupported: "+line, map[string]any{"target": "non-linux file set on linux/amd64"})
+	}
+	if len(stubs) > 0 {
+		ctx.Violation("C19:stub-native:system-calls", fmt.Sprintf("the non-Linux stubs (Supported, SetNoNewPrivs, 48 LoadFilter calls), executed on this host, performed system calls: %v", stubs), map[string]any{"target": "non-linux file set on linux/amd64", "calls": stubs})
+	}
+	return true, fmt.Sprintf("%d files swapped; %s", swapped, line)
 }
